@@ -15,7 +15,7 @@ def nontrivial(g) -> bool:
     return len(g['hyp']) >= 2
 
 
-def observe(cases, want, graph_timeout=20, extra=None):
+def observe(cases, want, graph_timeout=20, extra=None, _retry=True):
     per = max(1, min(120, len(cases) // (NCPU * 2) or 1))
     jobs = []
     for k in range(0, len(cases), per):
@@ -31,6 +31,34 @@ def observe(cases, want, graph_timeout=20, extra=None):
         else:
             for o in r['obs']:
                 obs[o['id']] = o
+    # the batteries are exponential in the number of simple paths of a cyclic graph: a graph
+    # that exceeded the per-graph limit next to fifteen busy workers is run again, one graph
+    # per job and with thirty times the limit, before it counts as not terminating
+    slow = [g for g in cases if obs[g['id']].get('timeout')]
+    if len(slow) > 200:     # that many slow graphs are a change in the code, not bad luck
+        slow = slow[:64]
+    if slow and _retry:
+        again = {}
+        for k in range(0, len(slow), 400):
+            again.update(observe_each(slow[k:k + 400], want, graph_timeout * 30, extra))
+        obs.update(again)
+    return obs
+
+
+def observe_each(cases, want, graph_timeout, extra):
+    jobs = []
+    for g in cases:
+        j = {'graphs': [g], 'want': want, 'graph_timeout': graph_timeout}
+        j.update(extra or {})
+        jobs.append(j)
+    res = run_driver('drv_tax.py', jobs, timeout=graph_timeout * 2 + 60)
+    obs = {}
+    for j, r in zip(jobs, res):
+        g = j['graphs'][0]
+        if r is None or r.get('timeout') or r.get('skipped'):
+            obs[g['id']] = {'id': g['id'], 'timeout': True}
+        else:
+            obs[g['id']] = r['obs'][0]
     return obs
 
 
